@@ -325,8 +325,11 @@ class Ctx:
         }
         if self.notes:
             ev["coverage"]["notes"] = self.notes
-        os.makedirs(os.path.join(VERIF, "evidence"), exist_ok=True)
-        with open(os.path.join(VERIF, "evidence", self.prop + ".json"), "w") as fh:
+        # evidence describes runs against /repo only: a run against a scratch copy (VERIF_REPO, mutant trials) keeps its
+        # record in its scratch directory
+        evdir = os.path.join(VERIF, "evidence") if REPO == "/repo" else self.mkdir("evidence")
+        os.makedirs(evdir, exist_ok=True)
+        with open(os.path.join(evdir, self.prop + ".json"), "w") as fh:
             json.dump(ev, fh, indent=1, sort_keys=True, default=str)
             fh.write("\n")
         if self.violations:
